@@ -626,6 +626,8 @@ func agree(impl, model string) (ok bool, skip bool) {
 	switch {
 	case model == "nondet" || strings.HasPrefix(model, "unmodelled"):
 		return true, true
+	case impl == "unrun":
+		return true, true
 	case strings.HasPrefix(model, "ok "):
 		if !strings.HasPrefix(impl, "ok ") {
 			return false, false
